@@ -245,55 +245,58 @@ func TestC14(t *testing.T) {
 		}
 		Col.MarkExhaustive(fmt.Sprintf("lengths m*2^k and +-1 for m in {1,3,5,7}, k=10..%d, 4 algorithms", maxK))
 	})
+	RunProps(t, rpC14())
+}
+
+func init() { RapidProps["C14"] = rpC14 }
+
+func rpC14() (out []RProp) {
 	// (2c) complete frame images (header, body, trailer) of every protocol as checksum input
-	t.Run("frame-images", func(t *testing.T) {
-		CheckProp(t, "C14", "c14", "frame-images", func(rt *rapid.T) *CaseC14 {
-			ft := frameOf(rapid.SampledFrom(ModuleIDs).Draw(rt, "module"))
-			o := GenOpts{Mode: Canonical, MaxList: 300, BigProb: 20}
-			v, _ := GenValue(rt, ft, o)
-			w := Render(v, nil).Bytes
-			switch rapid.IntRange(0, 2).Draw(rt, "part") {
-			case 1: // without the trailer (what the encoder hands to the service)
-				if len(w) >= 4 {
-					w = w[:len(w)-4]
-				}
-			case 2: // two frames back to back
-				w = append(append([]byte{}, w...), w...)
+	out = append(out, MkProp("C14", "c14", "frame-images", func(rt *rapid.T) *CaseC14 {
+		ft := frameOf(rapid.SampledFrom(ModuleIDs).Draw(rt, "module"))
+		o := GenOpts{Mode: Canonical, MaxList: 300, BigProb: 20}
+		v, _ := GenValue(rt, ft, o)
+		w := Render(v, nil).Bytes
+		switch rapid.IntRange(0, 2).Draw(rt, "part") {
+		case 1: // without the trailer (what the encoder hands to the service)
+			if len(w) >= 4 {
+				w = w[:len(w)-4]
 			}
-			c := &CaseC14{Algo: rapid.SampledFrom(c14Algos).Draw(rt, "algo"), Raw: w}
-			if c.Raw == nil {
-				c.Raw = HexBytes{}
-			}
-			c14Record(c, w, "frame-image")
-			return c
-		}, oracleC14)
-	})
+		case 2: // two frames back to back
+			w = append(append([]byte{}, w...), w...)
+		}
+		c := &CaseC14{Algo: rapid.SampledFrom(c14Algos).Draw(rt, "algo"), Raw: w}
+		if c.Raw == nil {
+			c.Raw = HexBytes{}
+		}
+		c14Record(c, w, "frame-image")
+		return c
+	}, oracleC14))
 	// (3) generated
 	maxRun := 1 << 16
 	if Thorough() {
 		maxRun = 1 << 22
 	}
-	t.Run("random", func(t *testing.T) {
-		CheckProp(t, "C14", "c14", "random", func(rt *rapid.T) *CaseC14 {
-			c := &CaseC14{Algo: rapid.SampledFrom(c14Algos).Draw(rt, "algo")}
-			if rapid.Bool().Draw(rt, "raw") {
-				c.Raw = rapid.SliceOfN(rapid.Byte(), 0, 4096).Draw(rt, "raw")
-				if c.Raw == nil {
-					c.Raw = HexBytes{}
-				}
-			} else {
-				n := rapid.IntRange(1, 6).Draw(rt, "nruns")
-				for i := 0; i < n; i++ {
-					b := rapid.OneOf(rapid.SampledFrom([]byte{0xFF, 0x80, 0x7F, 0x00, 0x01, 0xFE}), rapid.Byte()).Draw(rt, "b")
-					k := rapid.OneOf(rapid.IntRange(0, 300), rapid.IntRange(0, maxRun)).Draw(rt, "n")
-					c.Runs = append(c.Runs, Run{b, k})
-				}
+	out = append(out, MkProp("C14", "c14", "random", func(rt *rapid.T) *CaseC14 {
+		c := &CaseC14{Algo: rapid.SampledFrom(c14Algos).Draw(rt, "algo")}
+		if rapid.Bool().Draw(rt, "raw") {
+			c.Raw = rapid.SliceOfN(rapid.Byte(), 0, 4096).Draw(rt, "raw")
+			if c.Raw == nil {
+				c.Raw = HexBytes{}
 			}
-			if rapid.IntRange(0, 3).Draw(rt, "hasPrefix") == 0 {
-				c.Consumed = rapid.IntRange(1, 100).Draw(rt, "consumed")
+		} else {
+			n := rapid.IntRange(1, 6).Draw(rt, "nruns")
+			for i := 0; i < n; i++ {
+				b := rapid.OneOf(rapid.SampledFrom([]byte{0xFF, 0x80, 0x7F, 0x00, 0x01, 0xFE}), rapid.Byte()).Draw(rt, "b")
+				k := rapid.OneOf(rapid.IntRange(0, 300), rapid.IntRange(0, maxRun)).Draw(rt, "n")
+				c.Runs = append(c.Runs, Run{b, k})
 			}
-			c14Record(c, c.data(), "random")
-			return c
-		}, oracleC14)
-	})
+		}
+		if rapid.IntRange(0, 3).Draw(rt, "hasPrefix") == 0 {
+			c.Consumed = rapid.IntRange(1, 100).Draw(rt, "consumed")
+		}
+		c14Record(c, c.data(), "random")
+		return c
+	}, oracleC14))
+	return
 }
